@@ -15,7 +15,11 @@ RULE = ('random contents of article_version / tag_version / label_version / arti
         'one-to-many to the non-versioned Note) are loaded with Core INSERTs - entities deleted and re-created, children '
         'moved between parents, links removed and re-added, foreign keys NULL or pointing at absent parents - and every '
         'reflected relationship is read on every version object through the ORM, under both strategies. Non-trivial: >= 2 '
-        'children whose histories interleave with >= 2 owner versions, or a pair with >= 2 association rows.')
+        'children whose histories interleave with >= 2 owner versions, or a pair with >= 2 association rows. '
+        'HISTORY cases (a quarter): a generated program (general, many-to-many heavy, or children moved between parents) is run '
+        'on the real code; the version tables are those the package wrote; every relationship of every version is read and '
+        'compared (a) with the model on those tables and (b) end to end with the application\'s own tables as they were at '
+        'the commit that ended the version\'s transaction (tags pointing at the article, links of the article, parent of the tag).')
 ASSUMPTIONS = ['single-column keys and foreign keys; custom primaryjoin shapes are not modelled',
                'the end-to-end reading relies on C01 (as-of version = state at that commit)']
 
@@ -56,7 +60,67 @@ def gen_cases(rng, n, tier):
                         av.append(dict(l=a, r=l, tx=tx, op=rng.choice([0, 0, 2])))
         notes = [dict(id=j, article_id=rng.choice([None, 1, 2, 3])) for j in range(1, rng.randint(1, 4))]
         out.append(dict(strategy=strategy, art=art, tag=tag, lab=lab, av=av, notes=notes))
+    # histories: the version tables are what the package itself wrote
+    for i in range(max(20, n // 4)):
+        cfg = dict(shape='blog', strategy='subquery' if i % 2 else 'validity')
+        prog = hist.gen_program(rng, cfg, n_ops=rng.randint(10, 24),
+                                weights=None)
+        prog = [op for op in prog if op[0] not in ('rollback', 'manualtx')]
+        if i % 3 == 1:
+            import pC10
+            prog = []
+            cnt = 0
+            for op in pC10.gen_link_program(rng):      # many-to-many heavy
+                prog.append(op)
+                # a link change alone writes no version of the article or label: change a column in the same
+                # transaction so that a version exists whose relationship must show the new link set
+                if op[0] in ('link', 'unlink', 'link_rev', 'unlink_rev', 'setlinks') and rng.random() < 0.7:
+                    cnt += 1
+                    if rng.random() < 0.7:
+                        prog.append(['set', 0, op[1], {'a': 10 + cnt}])
+                    elif op[0] != 'setlinks':
+                        prog.append(['set', 2, op[2], {'a': 10 + cnt}])
+        elif i % 3 == 2:
+            prog = gen_tag_program(rng)                # children moved between parents, parents deleted / re-created
+        out.append(dict(kind='H', strategy=cfg['strategy'], prog=prog))
     return out
+
+
+def gen_tag_program(rng):
+    prog = [['add', 0, 1, {'a': 1}], ['add', 0, 2, {'a': 1}], ['add', 1, 1, {'a': 0}], ['add', 1, 2, {'a': 0}], ['commit']]
+    arts, tags = {1, 2}, {1, 2}
+    for _ in range(rng.randint(5, 14)):
+        r = rng.random()
+        if r < 0.40 and tags:
+            t = rng.choice(sorted(tags))
+            a = rng.choice(sorted(arts) + [None]) if arts else None
+            prog.append(['tagto', t, a])
+        elif r < 0.50 and tags and arts:
+            prog.append(['tagappend', rng.choice(sorted(arts)), rng.choice(sorted(tags))])
+        elif r < 0.58 and tags:
+            prog.append(['set', 1, rng.choice(sorted(tags)), {'a': rng.choice([0, 1, 2])}])
+        elif r < 0.66 and arts:
+            prog.append(['set', 0, rng.choice(sorted(arts)), {'a': rng.choice([0, 1, 2])}])
+        elif r < 0.72 and len(tags) > 1:
+            t = rng.choice(sorted(tags))
+            prog.append(['del', 1, t])
+            tags.discard(t)
+        elif r < 0.78:
+            t = rng.choice([1, 2, 3])
+            if t not in tags:
+                prog.append(['add', 1, t, {'a': 1}])
+                tags.add(t)
+        elif r < 0.84:
+            a = rng.choice([1, 2])
+            if a not in arts:
+                prog.append(['add', 0, a, {'a': 2}])
+                arts.add(a)
+        elif r < 0.90:
+            prog.append(['flush'])
+        else:
+            prog.append(['commit'])
+    prog.append(['commit'])
+    return prog
 
 
 def _fill_end(rows):
@@ -111,6 +175,12 @@ def _observe(env, case):
     if case['notes']:
         conn.execute(N.__table__.insert(), [dict(id=n['id'], article_id=n['article_id']) for n in case['notes']])
     conn.commit()
+    return _read_relationships(env)
+
+
+def _read_relationships(env):
+    A, T, L, N = env.Article, env.Tag, env.Label, env.Note
+    AV, TV, LV = env.version_class(A), env.version_class(T), env.version_class(L)
     s = env.session()
     try:
         def ref(v):
@@ -133,13 +203,59 @@ def _observe(env, case):
         s.close()
 
 
+def _observe_history(env, cfg, case):
+    """run a history on the real code, then read every relationship of every version it produced; the version tables
+    of the case are what the history left behind, and the application's own tables at every commit are kept"""
+    conn = env.connection
+    env.Base.metadata.drop_all(conn)
+    env.Base.metadata.create_all(conn)
+    conn.commit()
+    r = hist.run_program(env, cfg, case['prog'])
+    if r['exc'] or not r['snaps']:
+        return dict(aobs=[], tobs=[], lobs=[], exc=r['exc'] or 'no snapshot', tables=None)
+    fin = r['snaps'][-1]
+
+    def rows(tab):
+        return [dict(key=x['key'][0], tx=x['tx'], op=x['op'], dat=[hist.coerce_val(v) for v in x['dat']])
+                for x in fin['vt'] if x['tab'] == tab]
+    tables = dict(art=rows(0), tag=rows(1), lab=rows(2),
+                  av=[dict(l=a['key'][0], r=a['key'][1], tx=a['tx'], op=a['op']) for a in fin['av']],
+                  notes=[dict(id=l['vals'][0], article_id=l['vals'][2]) for l in fin['live'] if l['cls'] == 3])
+    live, prev = [], set()
+    for ev, sn in zip(r['trace'], r['snaps']):
+        if ev['ev'] == 'commit':
+            arts = [l['vals'][0] for l in sn['live'] if l['cls'] == 0]
+            tags = [[l['vals'][0], l['vals'][2]] for l in sn['live'] if l['cls'] == 1]
+            labs = [l['vals'][0] for l in sn['live'] if l['cls'] == 2]
+            links = [a['key'] for a in sn['alive']]
+            # SQLite does not enforce the declared foreign keys: a state with a tag or link pointing at a missing row
+            # (e.g. label.articles.append(a); delete(label) in one transaction) is outside the schema and not judged
+            sound = all(t[1] is None or t[1] in arts for t in tags) and all(p[0] in arts and p[1] in labs for p in links)
+            for T in sorted(set(sn['tx']) - prev):
+                if sound:
+                    live.append(dict(tx=T, arts=arts, tags=tags, links=links))
+        if ev['ev'] in ('commit', 'rollback'):
+            prev = set(sn['tx'])
+    obs = _read_relationships(env)
+    obs.update(tables=tables, live=live, trace=r['trace'], outcomes=r['outcomes'])
+    return obs
+
+
 def _worker(chunk):
     strategy, items = chunk
     cfg = dict(shape='blog', strategy=strategy)
     out = []
     with E.Env(options=hist.options_for(cfg), plugins=[], build=hist.SHAPES['blog'](cfg)) as env:
         for idx, case in items:
-            out.append((idx, _observe(env, case)))
+            try:
+                if case.get('kind') == 'H':
+                    out.append((idx, _observe_history(env, cfg, case)))
+                else:
+                    out.append((idx, _observe(env, case)))
+            except Exception as e:
+                import traceback
+                out.append((idx, dict(aobs=[], tobs=[], lobs=[], tables=None,
+                                      exc='%s: %s %s' % (type(e).__name__, e, traceback.format_exc()[-500:]))))
     return out
 
 
@@ -168,13 +284,17 @@ def gref(x):
 
 
 def encode(case, obs):
+    live = []
+    if case.get('kind') == 'H':
+        case = obs.get('tables') or dict(art=[], tag=[], lab=[], av=[], notes=[])
+        live = obs.get('live') or []
     seen, av = set(), []
     for a in case['av']:
         if (a['l'], a['r'], a['tx']) not in seen:
             seen.add((a['l'], a['r'], a['tx']))
             av.append(a)
     return ('{| c4_art := %s; c4_tag := %s; c4_lab := %s; c4_av := %s; c4_notes := %s; c4_aobs := %s; c4_tobs := %s; '
-            'c4_lobs := %s; c4_exc := %s |}') % (
+            'c4_lobs := %s; c4_live := %s; c4_exc := %s |}') % (
         gvt(case['art']), gvt(case['tag']), gvt(case['lab']),
         glist(av, lambda a: '(mklnk %s %s %s %s)' % (gZ(a['l']), gZ(a['r']), gZ(a['tx']), gZ(a['op']))),
         glist(case['notes'], lambda n: gpair(gZ(n['id']), gopt(n['article_id']))),
@@ -184,10 +304,16 @@ def encode(case, obs):
             gZ(o['key']), gZ(o['tx']), 'None' if o['article'] is None else '(Some %s)' % gref(o['article']))),
         glist(obs['lobs'], lambda o: '{| lo_key := %s; lo_tx := %s; lo_articles := %s |}' % (
             gZ(o['key']), gZ(o['tx']), glist(o['articles'], gref))),
+        glist(live, lambda x: '(%s, (%s, %s, %s))' % (
+            gZ(x['tx']), glist(x['arts']), glist(x['tags'], lambda t: gpair(gZ(t[0]), gopt(t[1]))),
+            glist(x['links'], lambda p: gpair(gZ(p[0]), gZ(p[1]))))),
         gbool(obs['exc'] is not None))
 
 
 def nontrivial(case, obs):
+    if case.get('kind') == 'H':
+        t = obs.get('tables')
+        return bool(t) and len(t['tag']) + len(t['av']) >= 2 and len(t['art']) >= 2
     tagkeys = {}
     for r in case['tag']:
         tagkeys.setdefault(r['key'], []).append(r['tx'])
@@ -202,11 +328,21 @@ def nontrivial(case, obs):
 
 
 def features(case, obs):
+    if case.get('kind') == 'H':
+        t = obs.get('tables') or {}
+        return ['kind=history', 'strategy=' + case['strategy'], 'art=%d' % len(t.get('art', [])),
+                'tag=%d' % len(t.get('tag', [])), 'av=%d' % min(len(t.get('av', [])), 9)]
     return ['strategy=' + case['strategy'], 'art=%d' % len(case['art']), 'tag=%d' % len(case['tag']), 'av=%d' % min(len(case['av']), 9)]
 
 
 def shrink(case):
     out = []
+    if case.get('kind') == 'H':
+        for i in range(len(case['prog'])):
+            c = json.loads(json.dumps(case))
+            del c['prog'][i]
+            out.append(c)
+        return out
     for field in ('art', 'tag', 'lab', 'av', 'notes'):
         for i in range(len(case[field])):
             c = json.loads(json.dumps(case))
@@ -217,3 +353,14 @@ def shrink(case):
 
 def describe(case, obs):
     return dict(case=case, observed=obs)
+
+
+def classify(case, obs):
+    # history cases: a row switch leaves versions whose stored foreign key differs from the live row (open finding)
+    if case.get('kind') == 'H':
+        import corebase
+        return corebase.classify_corr(case, obs)
+    return None
+
+
+classify_corr = classify
